@@ -58,7 +58,18 @@ class SObj(Model):
             return False
         if self is ZERO or self is ONE or self is PENDING:
             return False    # the sentinel singletons are instances of their own classes only
+        if clsname == "ndarray" and getattr(eng, "numeric_probes", False):
+            # a regular element value may or may not be a numpy array (sparse, symbolic, LinearOperator values are not); sentinels never are
+            if eng.branch(self.tag == TAG_VAL):
+                return eng.branch(eng.fresh("element_is_ndarray", "bool"))
+            return False
         raise Unsupported(f"isinstance(element value, {clsname})")
+
+    def m_getattr(self, eng, name):
+        if name == "dtype" and getattr(eng, "numeric_probes", False):
+            from .core import TypeObj
+            return TypeObj("dtype-of-element")
+        raise Unsupported(f"element value .{name}")
 
     def m_unop(self, eng, op):
         if isinstance(op, ast.USub):
@@ -148,6 +159,23 @@ def dagger_model(eng, x):
     if eng.branch(x.tag == TAG_VAL):
         return SObj(TAG_VAL, x.nf.dagger())
     raise PyRaise(SExc("SympifyError", ("cannot sympify One",), tag="sentinel-arith"))
+
+
+def numeric_probe_namespace(eng):
+    """`np` for code that LOOKS INTO element values with tolerance-based tests (np.allclose / np.isclose): the answer is an arbitrary Boolean - a block whose entries are
+    all tiny but not zero answers True, a generic block False - and says nothing about the value being (exactly) zero.  Exact tests (`.any()`, `count_nonzero`) are NOT
+    modelled: they would justify dropping the term, so a model that leaves the answer arbitrary would produce spurious refutations (they stay Unsupported: undecided)."""
+    from .core import Namespace, TypeObj
+    eng.numeric_probes = True
+
+    def tolerance_test(e, a, b=None, rtol=None, atol=None, equal_nan=None):
+        if isinstance(atol, (int, float)) and atol == 0:
+            raise Unsupported("tolerance test with atol=0 (an exact test when the reference is 0)")
+        e.used_models.add("A-NP2:np.allclose / np.isclose against 0 with a positive absolute tolerance: True for blocks of tiny non-zero entries (the answer does not imply the value is zero)")
+        return e.branch(e.fresh("tolerance_test_true", "bool"))
+    return Namespace("np", {"ndarray": TypeObj("ndarray"), "number": TypeObj("number"), "inexact": TypeObj("inexact"), "floating": TypeObj("floating"),
+                            "issubdtype": Builtin("np.issubdtype", lambda e, a, b: e.branch(e.fresh("issubdtype", "bool"))),
+                            "allclose": Builtin("np.allclose", tolerance_test), "isclose": Builtin("np.isclose", tolerance_test)})
 
 
 class SMulOp(Model):
